@@ -1,11 +1,12 @@
 #!/bin/sh
 # seedall.sh [suffix-regex]: re-validates every stored seed (patch still applies to /repo HEAD, suite passes, demo discriminates)
-# and re-runs the targeted property's quick check against it; updates seeded/*/meta.json.  About 1.5 minutes per seed.
+# and re-runs the targeted property's quick check against it; updates seeded/*/meta.json.  About 1.5 minutes per seed;
+# SEEDALL_FLAGS=--fast first tries only the shard that reported the seed last time (about 20 s per seed).
 cd "$(dirname "$0")/.." || exit 2
 for d in seeded/C*; do
     id=$(basename "$d")
     case "$id" in *$1*) ;; *) continue ;; esac
-    if grep -q domain_note "$d/meta.json" 2>/dev/null; then echo "$id: outside the stated domain, not run"; continue; fi
-    python3 tools/seedtest.py "$id" --keep 2>&1 | grep -v conda | tr '\n' ' ' | cut -c1-330
+    if grep -q "domain_note\|not_reported_note" "$d/meta.json" 2>/dev/null; then echo "$id: not claimed / not reported (see meta.json), not run"; continue; fi
+    python3 tools/seedtest.py "$id" --keep $SEEDALL_FLAGS 2>&1 | grep -v conda | tr '\n' ' ' | cut -c1-330
     echo
 done
